@@ -168,8 +168,10 @@ fn lines_sweep(ctx: &mut Ctx, idx: u64) {
     }
 }
 
-pub const BAD_LINES: [(&str, &str); 6] = [
+pub const BAD_LINES: [(&str, &str); 8] = [
     ("no-colon", "garbage without colon"),
+    ("bare-word", "JustAWord"),
+    ("bare-word-trailing-blank", "Word "),
     ("leading-dash", "-Name: v"),
     ("empty-name", ": v"),
     ("space-in-name", "Na me: v"),
